@@ -155,6 +155,45 @@ def normalise_code(text, fired):
         lit = text[mm.end() - 1:q2 + 1]
         text = text[:k] + 'str_concat(%s, %s)' % (text[k:close + 1], lit) + text[q2 + 1:]
         fired['N10'] = fired.get('N10', 0) + 1
+    # N16: V[A..B].copy_from_slice(S)  ->  vx_copy_range(&mut V, A, B, S)
+    m = mask(text)
+    for mm in list(re.finditer(r'\]\s*\.copy_from_slice\(', m))[::-1]:
+        close = mm.start()
+        depth, k = 0, close
+        while k >= 0:
+            if m[k] == ']':
+                depth += 1
+            elif m[k] == '[':
+                depth -= 1
+                if depth == 0:
+                    break
+            k -= 1
+        if k < 0:
+            raise GenError('N16: unbalanced index expression')
+        rs = k
+        while rs > 0 and re.match(r'[A-Za-z0-9_.]', m[rs - 1]):
+            rs -= 1
+        recv = text[rs:k]
+        inner = text[k + 1:close]
+        im = mask(inner)
+        d2, cut = 0, -1
+        for q in range(len(im) - 1):
+            if im[q] in '([{':
+                d2 += 1
+            elif im[q] in ')]}':
+                d2 -= 1
+            elif im[q:q + 2] == '..' and d2 == 0:
+                cut = q
+                break
+        if cut < 0 or not recv:
+            raise GenError('N16: not a range-indexed copy_from_slice')
+        lo, hi = inner[:cut].strip(), inner[cut + 2:].strip()
+        argo = mm.end() - 1
+        argc = match_close(m, argo)
+        arg = text[argo + 1:argc]
+        text = text[:rs] + 'vx_copy_range(&mut %s, %s, %s, %s)' % (recv, lo, hi, arg.strip()) + text[argc + 1:]
+        m = mask(text)
+        fired['N16'] = fired.get('N16', 0) + 1
     # N8: flatten module paths
     text = code_sub(text, r'(?<![A-Za-z0-9_:])(?:crate|self|super)::(?:[a-z_][a-z0-9_]*::)*(?=[A-Z])', '', fired, 'N8')
     text = code_sub(text, r'(?<![A-Za-z0-9_:])std::io::SeekFrom', 'SeekFrom', fired, 'N8')
